@@ -166,7 +166,7 @@ package ratelimitmw
 //@ func (*dnsmsg.Constructor).Cloner
 //@   modifies nothing
 //@ func (*Middleware).newRequestInfo
-//@   property C07
+//@   property C07 C03
 //@   requires MW(mw) && req != nil && len(req.Question) >= 1 && mw.logger != nil
 //@   modifies heap, lastFound
 //@   preserves Middleware.*, dns.Msg.Question, allelems(dns.Question)
